@@ -73,6 +73,107 @@ def all_modules():
     return mods
 
 
+def _install_module(mod, crate, gen_dir, holes, notes, features):
+    """All anchor resolution (which may raise LostAnchor) happens before anything is written, so that a module
+    that cannot be installed on this tree leaves the overlay untouched."""
+    if not mod['attach']:
+        raise ValueError('%s has no //@attach' % mod['path'])
+    with open(mod['path']) as f:
+        text = f.read()
+    # fill hole placeholders with text extracted from /repo by the Verus extractor
+    for h in re.findall(r'/\*@HOLE (\w+)@\*/', text):
+        if not holes or h not in holes:
+            raise LostAnchor('kani module %s needs hole %s which the extractor did not produce' % (mod['name'], h))
+        text = text.replace('/*@HOLE %s@*/' % h, holes[h]['content'])
+    # /*@BODY file :: seg :: fn name@*/ : the body block of a real function, cut from the tree
+    # under check on every run (for functions whose real signature drags in types CBMC cannot
+    # afford; the harness supplies a shim receiver and states it)
+    for spec in re.findall(r'/\*@BODY (.*?)@\*/', text):
+        segs = [x.strip() for x in spec.split(' :: ')]
+        fp = os.path.join(crate, segs[0])
+        if not os.path.exists(fp):
+            raise LostAnchor('BODY source %s missing' % segs[0])
+        with open(fp) as f:
+            fsrc = f.read()
+        st, en = locate(fsrc, segs[1:])
+        item = fsrc[st:en]
+        imask = code_mask(item)
+        fm = next(find_code(item, imask, r'\bfn\s+\w+'), None)
+        ob = next_open_brace(item, imask, fm.end()) if fm else -1
+        if ob < 0:
+            raise LostAnchor('BODY %s: no body' % spec)
+        text = text.replace('/*@BODY %s@*/' % spec, item[ob:match_brace(item, imask, ob) + 1])
+    # /*@SLICE file :: segs.. :: from "A" [occ N] to "B"@*/ : the text of the named function between the
+    # N-th occurrence of A (exclusive) and the next occurrence of B (exclusive), cut from the tree under
+    # check on every run: an expression of a function that is otherwise out of CBMC's reach
+    for spec in re.findall(r'/\*@SLICE (.*?)@\*/', text):
+        msl = re.match(r'(.*) :: from "(.*?)"(?: occ (\d+))? to "(.*?)"\s*$', spec)
+        if not msl:
+            raise LostAnchor('bad SLICE placeholder %r' % spec)
+        segs = [x.strip() for x in msl.group(1).split(' :: ')]
+        fp = os.path.join(crate, segs[0])
+        if not os.path.exists(fp):
+            raise LostAnchor('SLICE source %s missing' % segs[0])
+        with open(fp) as f:
+            fsrc = f.read()
+        st, en = locate(fsrc, segs[1:])
+        item = fsrc[st:en]
+        a_, occ_, b_ = msl.group(2), int(msl.group(3) or 1), msl.group(4)
+        # anchors are matched modulo whitespace, so that rustfmt's line breaking does not matter
+        def ws_pat(t):
+            return r'\s*'.join(re.escape(tok) for tok in re.findall(r'\w+|[^\w\s]', t))
+        ms = list(re.finditer(ws_pat(a_), item))
+        if len(ms) < occ_:
+            raise LostAnchor('SLICE %s: %r occurs %d time(s)' % (segs[-1], a_, len(ms)))
+        startp = ms[occ_ - 1].end()
+        mb = re.compile(ws_pat(b_)).search(item, startp)
+        if not mb:
+            raise LostAnchor('SLICE %s: %r not found after %r' % (segs[-1], b_, a_))
+        piece = item[startp:mb.start()].strip().rstrip(',').strip()
+        text = text.replace('/*@SLICE %s@*/' % spec, piece)
+    mod_path = os.path.join(gen_dir, mod['name'] + '.rs')
+    target = os.path.join(crate, mod['attach'])
+    if not os.path.exists(target):
+        raise LostAnchor('attach target %s missing' % mod['attach'])
+    pending = {}      # file -> new text (contracts), written only when every anchor has been found
+    local_notes = []
+    # native contracts
+    by_file = {}
+    for c in mod['contracts']:
+        by_file.setdefault(c['file'], []).append(c)
+    for rel, cs in by_file.items():
+        p = os.path.join(crate, rel)
+        with open(p) as f:
+            src = f.read()
+        inserts = []
+        for c in cs:
+            start, end = locate(src, c['path'])
+            item = src[start:end]
+            mask = code_mask(item)
+            m = next(find_code(item, mask, r'(?:\bpub(?:\([^)]*\))?\s+)?(?:const\s+)?(?:unsafe\s+)?\bfn\s+\w+'), None)
+            if m is None:
+                raise LostAnchor('contract target %s: fn not found' % '::'.join(c['path']))
+            pos = start + m.start()
+            ls = src.rfind('\n', 0, pos) + 1
+            indent = src[ls:pos]
+            txt = ''.join('%s#[cfg_attr(kani, %s)]\n' % (indent, a[2:-1]) for a in c['attrs'])
+            inserts.append((ls, txt))
+            local_notes.append('contract on %s::%s (%d attrs)' % (rel, '::'.join(c['path']), len(c['attrs'])))
+        for pos, txt in sorted(inserts, reverse=True):
+            src = src[:pos] + txt + src[pos:]
+        pending[p] = src
+    # ---- nothing below raises LostAnchor ----
+    for p, src in pending.items():
+        with open(p, 'w') as f:
+            f.write(src)
+    with open(mod_path, 'w') as f:
+        f.write(text)
+    with open(target, 'a') as f:
+        f.write('\n#[cfg(kani)]\n#[path = "%s"]\nmod verif_kani_%s;\n' % (mod_path, mod['name']))
+    features.update(mod['features'])
+    notes.extend(local_notes)
+
+
 def build_overlay(repo, scratch, modules, holes=None):
     """Copy the crate and add the harness modules.  Returns notes (list of str)."""
     os.makedirs(scratch, exist_ok=True)
@@ -85,69 +186,12 @@ def build_overlay(repo, scratch, modules, holes=None):
     features = set()
     gen_dir = os.path.join(scratch, 'kani_gen')
     os.makedirs(gen_dir, exist_ok=True)
+    failed = []
     for mod in modules:
-        if not mod['attach']:
-            raise ValueError('%s has no //@attach' % mod['path'])
-        with open(mod['path']) as f:
-            text = f.read()
-        # fill hole placeholders with text extracted from /repo by the Verus extractor
-        for h in re.findall(r'/\*@HOLE (\w+)@\*/', text):
-            if not holes or h not in holes:
-                raise LostAnchor('kani module %s needs hole %s which the extractor did not produce' % (mod['name'], h))
-            text = text.replace('/*@HOLE %s@*/' % h, holes[h]['content'])
-        # /*@BODY file :: seg :: fn name@*/ : the body block of a real function, cut from the tree
-        # under check on every run (for functions whose real signature drags in types CBMC cannot
-        # afford; the harness supplies a shim receiver and states it)
-        for spec in re.findall(r'/\*@BODY (.*?)@\*/', text):
-            segs = [x.strip() for x in spec.split(' :: ')]
-            fp = os.path.join(crate, segs[0])
-            if not os.path.exists(fp):
-                raise LostAnchor('BODY source %s missing' % segs[0])
-            with open(fp) as f:
-                fsrc = f.read()
-            st, en = locate(fsrc, segs[1:])
-            item = fsrc[st:en]
-            imask = code_mask(item)
-            fm = next(find_code(item, imask, r'\bfn\s+\w+'), None)
-            ob = next_open_brace(item, imask, fm.end()) if fm else -1
-            if ob < 0:
-                raise LostAnchor('BODY %s: no body' % spec)
-            text = text.replace('/*@BODY %s@*/' % spec, item[ob:match_brace(item, imask, ob) + 1])
-        mod_path = os.path.join(gen_dir, mod['name'] + '.rs')
-        with open(mod_path, 'w') as f:
-            f.write(text)
-        target = os.path.join(crate, mod['attach'])
-        if not os.path.exists(target):
-            raise LostAnchor('attach target %s missing' % mod['attach'])
-        with open(target, 'a') as f:
-            f.write('\n#[cfg(kani)]\n#[path = "%s"]\nmod verif_kani_%s;\n' % (mod_path, mod['name']))
-        features.update(mod['features'])
-        # native contracts
-        by_file = {}
-        for c in mod['contracts']:
-            by_file.setdefault(c['file'], []).append(c)
-        for rel, cs in by_file.items():
-            p = os.path.join(crate, rel)
-            with open(p) as f:
-                src = f.read()
-            inserts = []
-            for c in cs:
-                start, end = locate(src, c['path'])
-                item = src[start:end]
-                mask = code_mask(item)
-                m = next(find_code(item, mask, r'(?:\bpub(?:\([^)]*\))?\s+)?(?:const\s+)?(?:unsafe\s+)?\bfn\s+\w+'), None)
-                if m is None:
-                    raise LostAnchor('contract target %s: fn not found' % '::'.join(c['path']))
-                pos = start + m.start()
-                ls = src.rfind('\n', 0, pos) + 1
-                indent = src[ls:pos]
-                txt = ''.join('%s#[cfg_attr(kani, %s)]\n' % (indent, a[2:-1]) for a in c['attrs'])
-                inserts.append((ls, txt))
-                notes.append('contract on %s::%s (%d attrs)' % (rel, '::'.join(c['path']), len(c['attrs'])))
-            for pos, txt in sorted(inserts, reverse=True):
-                src = src[:pos] + txt + src[pos:]
-            with open(p, 'w') as f:
-                f.write(src)
+        try:
+            _install_module(mod, crate, gen_dir, holes, notes, features)
+        except LostAnchor as e:
+            failed.append((mod['name'], str(e)))
     if features:
         lib = os.path.join(crate, 'src', 'lib.rs')
         with open(lib) as f:
@@ -158,7 +202,7 @@ def build_overlay(repo, scratch, modules, holes=None):
     os.makedirs(os.path.join(crate, '.cargo'), exist_ok=True)
     with open(os.path.join(crate, '.cargo', 'config.toml'), 'a') as f:
         f.write('\n[net]\noffline = true\n')
-    return crate, notes
+    return crate, notes, failed
 
 
 def _rss_watch(proc, cap_kb, flag):
